@@ -90,6 +90,25 @@ Definition parse_error_expected (authority : str) : bool :=
   end.
 
 (** args: the input string, the observation (profile 0 or 2) of URL(s, encoded=True) *)
+(** every other raw face of the path and query agrees with the stored strings *)
+Definition raw_faces_ok (o : val) : bool :=
+  match nthv i_raw_path o, nthv i_query o, nthv i_raw_path_qs o with
+  | WStr rp, WStr q, WStr pq => str_eqb pq (match q with [] => rp | _ => rp ++ [63] ++ q end)
+  | _, _, _ => true
+  end.
+
+(** args: the observation of a URL produced by an operation sequence (no input string to compare
+    with): the raw accessors re-compose to str(url) and agree with one another *)
+Definition c07_derived_pred (args : list val) : bool :=
+  match args with
+  | [o] => match o with
+           | WList _ => recompose_ok o && authority_split_ok o && raw_faces_ok o
+           | WErr _ => true
+           | _ => false
+           end
+  | _ => false
+  end.
+
 Definition c07_enc_pred (args : list val) : bool :=
   match args with
   | [WStr s; o] =>
